@@ -17,7 +17,17 @@ Record aplan := mkPlan { p_in_time : bool; p_early : bool; p_dups : N; p_norm_in
    1 if the payload names this very call (0 otherwise) *)
 Definition obs : Type := (N * N * N * N * N)%type.
 
-Definition c17_case : Type := (list aplan * bool * bool * obs * list ev)%type.
+(* ... plus, per attempt, the number of responses the requester's onResponse ACCEPTED into the attempt's channel (observed
+   through the node's logger: decoded - dropped as unknown - dropped as duplicate), and whether these statistics are available *)
+Definition c17_case : Type := (list aplan * bool * bool * obs * (bool * list N) * list ev)%type.
+
+(* a response accepted while the attempt was registered is never lost: only the last attempt of a call can have one, and then the
+   call ends with a response (or with the caller's own cancellation), never with a timeout or another error *)
+Fixpoint acc_ok (acc : list N) (k attempts cls : N) : bool :=
+  match acc with
+  | [] => true
+  | a :: rest => (if 1 <=? a then (k =? attempts) && ((cls =? 0) || (cls =? 2)) else true) && acc_ok rest (k + 1) attempts cls
+  end.
 
 Definition payload_code (att kind : N) : N := att * 10 + kind.
 
@@ -47,9 +57,10 @@ Fixpoint first_in_time (pl : list aplan) (k : N) : option (N * aplan) :=
 Definition kind_allowed (a : aplan) (kind : N) : bool :=
   ((kind =? 1) && p_norm_in_time a) || ((kind =? 2) && p_early a) || ((kind =? 3) && p_norm_in_time a && (0 <? p_dups a)).
 
-Definition spec_ok (pl : list aplan) (cancel strict : bool) (o : obs) : bool :=
+Definition spec_ok (pl : list aplan) (cancel strict : bool) (o : obs) (stats : bool * list N) : bool :=
   let '(cls, patt, kind, attempts, mine) := o in
   let budget := N.of_nat (length pl) in
+  (if fst stats then acc_ok (snd stats) 1 attempts cls else true) &&
   if strict then
     if cancel then (cls =? 2) && (attempts =? 1)
     else match first_in_time pl 1 with
@@ -58,11 +69,12 @@ Definition spec_ok (pl : list aplan) (cancel strict : bool) (o : obs) : bool :=
          end
   else
     (* latency around the timeout: either outcome is legal, but the correlation and the budget are not negotiable *)
-    ((cls =? 0) && (patt =? attempts) && (mine =? 1) && ((kind =? 1) || (kind =? 3)) && (1 <=? attempts) && (attempts <=? budget))
-    || ((cls =? 1) && (1 <=? attempts) && (attempts <=? budget)).
+    ((cls =? 0) && (patt =? attempts) && (mine =? 1) && ((kind =? 1) || (kind =? 2) || (kind =? 3)) && (1 <=? attempts) && (attempts <=? budget))
+    || ((cls =? 1) && (1 <=? attempts) && (attempts <=? budget))
+    || (cancel && (cls =? 2) && (1 <=? attempts) && (attempts <=? budget)).
 
 Definition check_call (c : c17_case) : N :=
-  let '(pl, cancel, strict, o, evs) := c in
+  let '(pl, cancel, strict, o, stats, evs) := c in
   let '(cls, patt, kind, attempts, mine) := o in
   let agree_model :=
     match model_obs evs attempts with
@@ -70,4 +82,4 @@ Definition check_call (c : c17_case) : N :=
         (mcls =? cls) && (if cls =? 0 then mpay =? payload_code patt kind else true) && mempty && mfree
     | None => false
     end in
-  code agree_model (spec_ok pl cancel strict o).
+  code agree_model (spec_ok pl cancel strict o stats).
